@@ -2,6 +2,7 @@
 
 Everything random is drawn here; check functions are pure functions of the record.
 """
+import copy
 import math
 
 from hypothesis import strategies as st
@@ -259,19 +260,44 @@ def row_count(draw, lo, hi):
     return draw(st.integers(min(max(lo, 3), hi), hi))
 
 
+ALT_ATTR = "alt v"
+
+
+@st.composite
+def self_join_pair(draw, L, alt_values):
+    """Self-join records: the right record describes the very same table (canon.build_pair
+    then passes the same DataFrame object twice), joined on the same attribute or on a
+    second string column holding `alt_values`."""
+    L = dict(L)
+    other_attr = draw(st.booleans())
+    if other_attr:
+        L["columns"] = list(L["columns"]) + [{"name": ALT_ATTR, "kind": "obj",
+                                              "values": list(alt_values)}]
+    R = copy.deepcopy(L)
+    if other_attr:
+        R["attr"] = ALT_ATTR
+    R["same_object"] = True
+    return L, R
+
+
 MISSING_PATTERNS = ["none", "left", "right", "both", "all", "lall", "rall"]
 
 
 @st.composite
 def two_tables(draw, tokcfg, tier, p_empty=1, missing=None, p_dup=1, max_extra=3,
-               min_rows=0, join_kind="obj"):
-    """Two table records sharing a vocabulary and cluster seeds."""
+               min_rows=0, join_kind="obj", self_join=None):
+    """Two table records sharing a vocabulary and cluster seeds.  One case in eight (or every
+    case with self_join=True) is a self-join: the same table object on both sides."""
     mr, mt = draw(size_profile(tier))
     words = draw(vocabulary(tokcfg))
     ww = _weighted(words)
     seeds = draw(st.lists(token_list(ww, mt, 1), min_size=1, max_size=3))
     nl = draw(row_count(min_rows, mr))
     nr = draw(row_count(min_rows, mr))
+    if self_join is None:
+        self_join = draw(st.integers(0, 7)) == 0
+    if self_join:
+        nr = nl
     if missing is None:
         missing = draw(st.sampled_from(["none", "none", "none", "left", "right", "both"]))
     pl = 3 if missing in ("left", "both") else 0
@@ -281,6 +307,8 @@ def two_tables(draw, tokcfg, tier, p_empty=1, missing=None, p_dup=1, max_extra=3
     rv = draw(row_values(tokcfg, words, nr, mt, p_empty, pr, p_dup,
                          missing_all=missing in ("all", "rall"), seeds=seeds))
     L = draw(table(lv, max_extra, join_kind))
+    if self_join:
+        return draw(self_join_pair(L, rv))
     R = draw(table(rv, max_extra, join_kind))
     return L, R
 
@@ -361,9 +389,14 @@ def n_jobs_value(draw, nrows):
 
 @st.composite
 def common_config(draw, L, R, score=None):
+    l_out = draw(out_attrs(L))
+    r_out = draw(out_attrs(R))
+    if R.get("same_object") and l_out and draw(st.booleans()):
+        # same attributes requested on both sides of a self-join, in another order
+        r_out = list(draw(st.permutations(l_out)))
     return {
-        "l_out": draw(out_attrs(L)),
-        "r_out": draw(out_attrs(R)),
+        "l_out": l_out,
+        "r_out": r_out,
         "prefix": draw(st.sampled_from(PREFIXES)),
         "out_sim_score": draw(st.booleans()) if score is None else score,
         "n_jobs": draw(n_jobs_value(canon.table_len(R))),
@@ -378,10 +411,11 @@ SET_JOIN_MEASURES = ["JACCARD", "COSINE", "DICE", "OVERLAP_COEFFICIENT", "OVERLA
 @st.composite
 def set_join_case(draw, tier, measures=SET_JOIN_MEASURES, p_empty=1, missing=None,
                   tok_kinds=("ws", "delim", "qgram", "alpha", "alnum"), allow_missing=None,
-                  score=None, ops=(">=", ">=", ">", "=")):
+                  score=None, ops=(">=", ">=", ">", "="), self_join=None):
     measure = draw(st.sampled_from(list(measures)))
     tokcfg = draw(tokenizer_cfg(tok_kinds))
-    L, R = draw(two_tables(tokcfg, tier, p_empty=p_empty, missing=missing))
+    L, R = draw(two_tables(tokcfg, tier, p_empty=p_empty, missing=missing,
+                           self_join=self_join))
     lv = canon.table_column(L, L["attr"])["values"]
     rv = canon.table_column(R, R["attr"])["values"]
     if measure == "OVERLAP":
@@ -435,11 +469,15 @@ def ed_strings(draw, n, maxlen=12, p_missing=0, alphabets=("ab", "abc", "ab ", "
 
 
 @st.composite
-def ed_tables(draw, tier, missing=None, max_extra=2):
+def ed_tables(draw, tier, missing=None, max_extra=2, self_join=None):
     mr = 8 if tier == "quick" else draw(st.sampled_from([8, 8, 16]))
     ml = 12 if tier == "quick" else draw(st.sampled_from([12, 12, 20]))
     nl = draw(row_count(0, mr))
     nr = draw(row_count(0, mr))
+    if self_join is None:
+        self_join = draw(st.integers(0, 7)) == 0
+    if self_join:
+        nr = nl
     if missing is None:
         missing = draw(st.sampled_from(["none", "none", "none", "left", "right", "both"]))
     alpha = draw(st.sampled_from(["ab", "abc", "ab ", "abé"]))
@@ -452,13 +490,16 @@ def ed_tables(draw, tier, missing=None, max_extra=2):
         rv = [draw(st.sampled_from([None, NAN]))
               if (missing in ("all", "rall") or draw(st.integers(0, 3)) == 0) else v for v in rv]
     L = draw(table(lv, max_extra))
+    if self_join:
+        return draw(self_join_pair(L, rv))
     R = draw(table(rv, max_extra))
     return L, R
 
 
 @st.composite
-def ed_join_case(draw, tier, missing=None, allow_missing=None, score=None, default_tok=True):
-    L, R = draw(ed_tables(tier, missing))
+def ed_join_case(draw, tier, missing=None, allow_missing=None, score=None, default_tok=True,
+                 self_join=None):
+    L, R = draw(ed_tables(tier, missing, self_join=self_join))
     tokcfg = {"kind": "qgram", "q": draw(st.integers(1, 4)), "padding": draw(st.booleans()),
               "return_set": draw(st.booleans())}
     if default_tok and draw(st.integers(0, 7)) == 0:
